@@ -194,13 +194,15 @@ func BFS(m *Model, opt BFSOptions) *BFSStats {
 	}
 	seen[hkey(m.fp(s0))] = struct{}{}
 	probe(nil)
-	frontier := [][]Step{nil}
+	// The frontier is a parent-pointer tree (one small node per state); paths are materialised on use.
+	frontier := []*pnode{nil}
 	complete := true
 	depth := 0
 	for ; depth < opt.MaxDepth && len(frontier) > 0; depth++ {
 		st.Frontier = append(st.Frontier, len(frontier))
-		var next [][]Step
-		for _, path := range frontier {
+		var next []*pnode
+		for _, pn := range frontier {
+			path := pn.path()
 			if !opt.Deadline.IsZero() && time.Now().After(opt.Deadline) {
 				complete = false
 				break
@@ -245,7 +247,7 @@ func BFS(m *Model, opt BFSOptions) *BFSStats {
 					kk := hkey(m.fp(cur))
 					if _, ok := seen[kk]; !ok || opt.NoPrune {
 						seen[kk] = struct{}{}
-						next = append(next, np)
+						next = append(next, &pnode{parent: pn, step: np[len(np)-1]})
 						probe(np)
 					}
 					// alternatives of the environment draws beyond the replayed prefix
@@ -279,6 +281,25 @@ func BFS(m *Model, opt BFSOptions) *BFSStats {
 	st.Exhaustive = complete
 	st.WallS = time.Since(start).Seconds()
 	return st
+}
+
+// pnode is one frontier entry: the last step plus a pointer to the state it was reached from.
+type pnode struct {
+	parent *pnode
+	step   Step
+}
+
+func (n *pnode) path() []Step {
+	d := 0
+	for x := n; x != nil; x = x.parent {
+		d++
+	}
+	p := make([]Step, d)
+	for x := n; x != nil; x = x.parent {
+		d--
+		p[d] = x.step
+	}
+	return p
 }
 
 func (m *Model) replayLast(path []Step) *Tr {
